@@ -29,6 +29,7 @@ type Obligation struct {
 	Claim  string
 	Pos    string
 	Cover  bool // reachability cover: expected sat
+	Static string // non-empty: decided without a solver (contract clause could not be interpreted)
 	Extra  []string
 
 	Result string
@@ -99,7 +100,7 @@ type gen struct {
 	allocs    []string
 	oblCount  map[string]int
 	callOrd   map[string]int
-	debugVals map[string]ssa.Value // latest DebugRef by name (approximate)
+	debugVals map[string]debugRef // latest DebugRef by name (approximate)
 	unsupported []string
 	assumed   map[string]bool // names of assumed contracts / axioms used
 	props     []string
@@ -110,6 +111,13 @@ type gen struct {
 	options   genOptions
 	knownSorts map[string]string
 	assertedOnce map[string]bool
+	lastLoadEntry bool
+	frameMode bool // generate per-write frame obligations
+	assignPlaces []*Place
+	assignErr error
+	frameProps []string
+	opaques map[string]*opaqueDef
+	readLog map[string]bool
 }
 
 type genOptions struct {
@@ -123,11 +131,14 @@ func (e *Engine) newGen(fn *ssa.Function, ctr *Contract, loopMod map[*ssa.BasicB
 		reach: map[*ssa.BasicBlock]string{}, out: map[*ssa.BasicBlock]*state{},
 		loops: map[*ssa.BasicBlock]*loopInfo{}, loopMod: loopMod,
 		written: map[*ssa.BasicBlock]map[string]bool{}, oblCount: map[string]int{}, callOrd: map[string]int{},
-		debugVals: map[string]ssa.Value{}, assumed: map[string]bool{}, logs: map[string]int{}, embSeen: map[string]bool{}, assertedOnce: map[string]bool{},
+		debugVals: map[string]debugRef{}, assumed: map[string]bool{}, logs: map[string]int{}, embSeen: map[string]bool{}, assertedOnce: map[string]bool{},
 	}
 	g.options.safety = true
 	if ctr != nil {
 		g.props = ctr.Props
+		if ctr.NoSafety {
+			g.options.safety = false
+		}
 	}
 	return g
 }
@@ -190,10 +201,24 @@ func (g *gen) unsupportedf(format string, args ...interface{}) {
 	g.unsupported = append(g.unsupported, fmt.Sprintf(format, args...))
 }
 
+// contractErr: a clause of the contract cannot be interpreted against the current code (renamed
+// parameter, changed signature, ...). The clause is reported as an undischarged obligation.
+func (g *gen) contractErr(kind, label string, err error) {
+	g.unsupported = append(g.unsupported, fmt.Sprintf("%s %s: %v", kind, label, err))
+	o := g.oblige("contract/"+kind, label, "false", token.NoPos, nil)
+	o.Static = err.Error()
+}
+
 // ---------------------------------------------------------------------------
 // heap access
 
 func (g *gen) heapGet(key, sort string) string {
+	if g.readLog != nil {
+		g.readLog[key] = true
+		if _, ok := g.heapSort[key]; !ok {
+			g.heapInit(key, sort)
+		}
+	}
 	if v, ok := g.cur.heap[key]; ok {
 		return v
 	}
@@ -278,6 +303,7 @@ func (g *gen) emb(structName, field, ref string) string {
 	if !g.embSeen[t] {
 		g.embSeen[t] = true
 		g.assumeGlobal(implies(not(eq(ref, "0")), not(eq(t, "0"))))
+		g.assumeGlobal(eq(g.birth(t), g.birth(ref)))
 	}
 	return t
 }
@@ -403,8 +429,37 @@ func placeType(p *Place) types.Type {
 
 // load dereferences a pointer value.
 func (g *gen) load(ptr Val, elem types.Type) Val {
+	v := g.load1(ptr, elem)
+	if g.lastLoadEntry {
+		g.noteEntryPtr(v)
+	}
+	return v
+}
+
+// isEntryHeap reports whether the heap array of key is still the entry-state array.
+func (g *gen) isEntryHeap(key string) bool {
+	v, ok := g.cur.heap[key]
+	return !ok || v == "H0_"+sanitize(key)
+}
+
+func (g *gen) placeKey(p *Place) string {
+	s := g.placeRootSort(p)
+	switch p.Kind {
+	case plField:
+		return fieldKey(p.Struct, p.Field)
+	case plElem:
+		return elemKey(s)
+	case plCell:
+		return cellKey(s)
+	}
+	return ""
+}
+
+func (g *gen) load1(ptr Val, elem types.Type) Val {
 	s := g.st.sortOf(elem)
+	g.lastLoadEntry = false
 	if ptr.Place != nil {
+		g.lastLoadEntry = g.isEntryHeap(g.placeKey(ptr.Place))
 		return g.introduce(Val{T: g.loadPlace(ptr.Place), Sort: s, Typ: elem}, false)
 	}
 	if _, ok := structOf(elem); ok {
@@ -414,6 +469,7 @@ func (g *gen) load(ptr Val, elem types.Type) Val {
 		es := g.st.sortOf(a.Elem())
 		return Val{T: app("select", g.heapGet(elemKey(es), arr("Int", arr("Int", es))), ptr.T), Sort: s, Typ: elem}
 	}
+	g.lastLoadEntry = g.isEntryHeap(cellKey(s))
 	return g.introduce(Val{T: app("select", g.heapGet(cellKey(s), arr("Int", s)), ptr.T), Sort: s, Typ: elem}, false)
 }
 
@@ -441,6 +497,17 @@ func (g *gen) store(ptr Val, elem types.Type, v Val) {
 // introduce records well-formedness facts about a value that enters the
 // function from outside (parameter, heap load, call result).
 func (g *gen) introduce(v Val, define bool) Val {
+	if v.Place == nil && v.Typ != nil {
+		switch v.Sort {
+		case "Int":
+			switch v.Typ.Underlying().(type) {
+			case *types.Pointer, *types.Map, *types.Chan:
+				g.aliveNow(v.T)
+			}
+		case "Slice":
+			g.aliveNow(app("s_base", v.T))
+		}
+	}
 	switch v.Sort {
 	case "Slice":
 		if define {
@@ -677,31 +744,71 @@ func (g *gen) freshVal(prefix string, t types.Type) Val {
 	return g.introduce(Val{T: n, Sort: s, Typ: t}, false)
 }
 
+// Allocation model: every object has a birth time; NOW is a scalar piece of state. A pointer that is
+// visible at some point was born at or before that point; a new object is born strictly later.
+func (g *gen) birth(t string) string {
+	g.declareFun("birth", []string{"Int"}, "Int")
+	return app("birth", t)
+}
+
+func (g *gen) now() string { return g.heapGet("NOW", "Int") }
+
+func (g *gen) now0() string { return g.heapInit("NOW", "Int") }
+
+// alive0Term: the object existed when the function was entered.
+func (g *gen) alive0Term(t string) string { return app("<=", g.birth(t), g.now0()) }
+
+// alive: t was read from the entry state (parameter, free variable, unmodified heap).
+func (g *gen) alive(t string) {
+	if t == "0" || t == "" {
+		return
+	}
+	g.assumeGlobal(or(eq(t, "0"), g.alive0Term(t)))
+}
+
+// aliveNow: any pointer value that is visible now refers to an object that exists now.
+func (g *gen) aliveNow(t string) {
+	if t == "0" || t == "" || strings.HasPrefix(t, "(- ") {
+		return
+	}
+	g.assume(or(eq(t, "0"), app("<=", g.birth(t), g.now())))
+}
+
+// newAlloc: a fresh object is non-nil and is born after everything that exists now.
 func (g *gen) newAlloc(prefix string) string {
 	n := g.freshName(prefix)
 	g.declare(n, "Int")
-	conds := []string{app(">", n, "0")}
-	for _, p := range g.allocs {
-		conds = append(conds, not(eq(n, p)))
-	}
-	seen := map[string]bool{}
-	for _, p := range g.knownPtrs {
-		if !seen[p] {
-			seen[p] = true
-			conds = append(conds, not(eq(n, p)))
-		}
-	}
-	g.assumeGlobal(and(conds...))
+	g.assumeGlobal(and(app(">", n, "0"), app(">", g.birth(n), g.now())))
+	g.heapSet("NOW", "Int", g.birth(n))
 	g.allocs = append(g.allocs, n)
 	return n
 }
 
-func (g *gen) notePtr(v Val) {
-	if v.Sort == "Int" && v.Typ != nil && v.Place == nil {
+// tick: something outside (a call, a loop iteration) may have allocated.
+func (g *gen) tick() {
+	old := g.now()
+	g.heapHavoc("NOW")
+	g.assume(app(">=", g.now(), old))
+}
+
+func (g *gen) notePtr(v Val) {}
+
+// noteEntryPtr: the value was read from the entry state (parameter, free variable, unmodified heap)
+func (g *gen) noteEntryPtr(v Val) {
+	if v.Place != nil || v.Typ == nil {
+		return
+	}
+	switch v.Sort {
+	case "Int":
 		switch v.Typ.Underlying().(type) {
-		case *types.Pointer, *types.Map:
-			g.knownPtrs = append(g.knownPtrs, v.T)
+		case *types.Pointer, *types.Map, *types.Chan, *types.Signature:
+			g.alive(v.T)
 		}
+	case "Slice":
+		g.alive(app("s_base", v.T))
+	case "Iface":
+		// payload pointers of interface values: alive or nil (boxed scalars are not references, harmless)
+		g.alive(app("i_val", v.T))
 	}
 }
 
@@ -866,7 +973,7 @@ func (g *gen) run() {
 	// parameters and free variables
 	for _, p := range fn.Params {
 		v := g.val(p)
-		g.notePtr(v)
+		g.noteEntryPtr(v)
 	}
 	for _, fv := range fn.FreeVars {
 		v := g.val(fv)
@@ -879,7 +986,7 @@ func (g *gen) run() {
 			}
 		}
 		g.assumeGlobal(not(eq(v.T, "0")))
-		g.knownPtrs = append(g.knownPtrs, v.T)
+		g.alive(v.T)
 	}
 	g.entry = g.cur.clone()
 	if g.ctr != nil {
@@ -887,7 +994,7 @@ func (g *gen) run() {
 		for _, r := range g.ctr.Requires {
 			t, err := g.evalBool(env, r.E)
 			if err != nil {
-				g.unsupportedf("requires %s: %v", r.Label, err)
+				g.contractErr("requires", r.Label, err)
 				continue
 			}
 			g.assumeGlobal(t)
@@ -895,6 +1002,18 @@ func (g *gen) run() {
 	}
 	// the entry state may have been extended by evaluating requires (lazy heap declarations do not change it)
 	g.entry = g.cur.clone()
+	if g.ctr != nil && g.ctr.HasAssign {
+		g.frameMode = true
+		env := g.specEnvAtEntry()
+		for _, a := range g.ctr.Assigns {
+			p, err := g.placeOf(env, a)
+			if err != nil {
+				g.contractErr("assigns", a.String(), err)
+				continue
+			}
+			g.assignPlaces = append(g.assignPlaces, p)
+		}
+	}
 
 	order := g.rpo()
 	for _, b := range order {
@@ -1076,7 +1195,7 @@ func (g *gen) loopHeader(li *loopInfo, phis []*ssa.Phi, initOf func(*ssa.Phi) st
 		g.bindLoopVars(env, li, func(p *ssa.Phi) Val { return initEnv[p.Name()] })
 		t, err := g.evalBool(env, inv.E)
 		if err != nil {
-			g.unsupportedf("loop %d invariant %s: %v", li.ord, inv.Label, err)
+			g.contractErr(fmt.Sprintf("loop#%d-invariant", li.ord), inv.Label, err)
 			continue
 		}
 		g.oblige(fmt.Sprintf("loop#%d/inv-init", li.ord), inv.Label, t, token.NoPos, inv.Props)
@@ -1091,8 +1210,16 @@ func (g *gen) loopHeader(li *loopInfo, phis []*ssa.Phi, initOf func(*ssa.Phi) st
 		ks = append(ks, k)
 	}
 	sort.Strings(ks)
+	nowBefore := g.now()
 	for _, k := range ks {
 		g.heapHavoc(k)
+		g.assumeFrame(k)
+	}
+	if li.mod["NOW"] {
+		g.assume(app(">=", g.now(), nowBefore))
+	}
+	for _, p := range phis {
+		g.introduce(g.vals[p], false)
 	}
 	// automatic facts for range-index loops: -1 <= idx < len (proved, see inv list) are part of invs
 	// 4. assume invariants
@@ -1191,3 +1318,42 @@ func (g *gen) bindLoopVars(env *specEnv, li *loopInfo, valOf func(*ssa.Phi) Val)
 	}
 }
 
+
+// assumeFrame: in a function whose writes are all checked against its `assigns` clause, any heap array
+// equals the entry array at every object that was alive at entry and is not named in `assigns`
+// (justified by the per-write frame obligations of the same function).
+func (g *gen) assumeFrame(key string) {
+	if !g.frameMode {
+		return
+	}
+	cur, ok := g.cur.heap[key]
+	if !ok {
+		return
+	}
+	init := "H0_" + sanitize(key)
+	if cur == init || !g.declared[init] {
+		return
+	}
+	if strings.HasPrefix(key, "LOG|") || strings.HasPrefix(key, "G|") || key == "NOW" {
+		return
+	}
+	o := g.freshName("fo")
+	conds := []string{g.alive0Term(o)}
+	for _, a := range g.assignPlaces {
+		match := false
+		switch a.Kind {
+		case plField:
+			match = key == fieldKey(a.Struct, a.Field) || (a.Field == "*" && strings.HasPrefix(key, "F|"+a.Struct+"|"))
+		case plCell:
+			match = key == cellKey(g.st.sortOf(a.Elem))
+		case plElem:
+			match = key == elemKey(g.st.sortOf(a.Elem))
+		case plMap:
+			match = g.isMapKeyOf(a, key)
+		}
+		if match {
+			conds = append(conds, not(eq(o, g.placeRef(a))))
+		}
+	}
+	g.assumeGlobal(fmt.Sprintf("(forall ((%s Int)) (! (=> %s (= (select %s %s) (select %s %s))) :pattern ((select %s %s))))", o, and(conds...), cur, o, init, o, cur, o))
+}
